@@ -45,6 +45,13 @@ impl Builder<'_> {
         if matches!(target, Datastore::Running) {
             return Err(Error::DeleteRunningConfig);
         };
+        // RFC 6241 section 7.4: besides a URL, only <startup/> can be deleted.
+        if matches!(target, Datastore::Candidate) {
+            return Err(Error::InvalidTarget {
+                operation_name: DeleteConfig::NAME,
+                datastore: target,
+            });
+        };
         target.try_as_target(self.ctx).map(|target| {
             self.target.set(Target::Datastore(target));
             self
